@@ -14,6 +14,9 @@ RULE = ("MapOps.tla: CutOne (enclosing interval, closedness, open outer bounds, 
 def run(ctx):
     q = ctx.quick
     r = ctx.tlc("map", "MCMapOps", "MCMapOps_c14.cfg" if q else "MCMapOps_c14_thorough.cfg", workers=8, timeout=3000)
+    # at most one interval contains a value, none beyond the outer edges, one between them - for ascending edge
+    # vectors of ANY length (TLA+ proof system with induction, 116 obligations; InBin is MapOps.tla's own, CutIdx.tla)
+    ctx.tlaps("cut-proof", "CutProof", needs=("CutIdx",))
     binp = ctx.build("tvh-map")
     ctx.harness("map", binp, ["replay-map", "--only", "uniq,cut", "--in", r["emitted"]])
     ctx.assumptions += BASE_ASSUMPTIONS + [
